@@ -1,11 +1,20 @@
-# no listed finding classes: the four defects found by this check are repaired in /repo
-# (dee6410, 2b21c7f, 3eba51b, 0702a5f); any oracle hit is unlisted and therefore a VIOLATION
+TXROOT = "side-chain-skips-tx-root-check"
+
+
+# the defects found earlier are repaired in /repo (dee6410, 2b21c7f, 3eba51b, 0702a5f): their
+# reappearance is an unlisted oracle hit.  One open finding (fixes/C11_side_chain_skips_tx_root_check.md):
+# only the "made canonical by reorg WITHOUT being executed" form of a tx-root-invalid block is listed;
+# an invalid block that is imported as head is always unlisted
 def _key(h):
-    return h.get("what", "") if isinstance(h, dict) else str(h)
+    w = h.get("what", "") if isinstance(h, dict) else str(h)
+    if w.endswith("canonical block's body does not hash to its header's transaction root (made canonical by reorg without being executed)") \
+            or w.endswith("invalid-block-canonical: tx-root-only-invalid block made canonical by reorg without being executed"):
+        return TXROOT
+    return w
 
 
 SPEC = {
-    "level_text": "Coq theorems, by induction over all histories of offered batches (any block tree, any order/grouping, any recursion fuel) and over all write budgets (= all crash points), about a hand-written executable model of InsertChain / insertChain's error dispatch / insertSidechain / verifyAllSideChainBlocks / WriteBlockWithState / reorg / stageHead / loadLastState / repair over abstract blocks: (1) after every history the number->hash index from genesis to head is a parent-linked chain of stored blocks, the head state is on disk, every lookup entry points into a canonical block at or below the head, and no block failing the signature, consensus-field, body or state check is anywhere in the index; (2) whatever database write of whatever import the process dies after, the restart succeeds and the restarted node is consistent in the same sense; (3) the restarted node stays consistent under any further history; (4) not-wedged for every batch that extends the head linearly and for every batch whose first head switch reorganises the chain (first block on any stored block with state, head anywhere, linear rest): after any crash point, offering the batch again yields exactly the database and head of the node that never crashed. The model is compared with the real core.BlockChain on every run inside Coq: error class, classified write sequence and abstract database after each batch; restart head, consistency verdict, re-import result and head after one further valid block at every crash point of every batch; restart on databases that lost state roots (repair).",
+    "level_text": "Coq theorems, by induction over all histories of offered batches (any block tree, any order/grouping, any recursion fuel) and over all write budgets (= all crash points), about a hand-written executable model of InsertChain / insertChain's error dispatch / insertSidechain / verifyAllSideChainBlocks / WriteBlockWithState / reorg / stageHead / loadLastState / repair over abstract blocks: (1) after every history the number->hash index from genesis to head is a parent-linked chain of stored blocks, the head state is on disk, every lookup entry points into a canonical block at or below the head (C11_import_chain_consistent, unconditional); (1b) only valid blocks are canonical: block validity is checked on every dispatch path of the model (plain, known, ErrExistCanonical at index 0 -> side chain -> handed back, ErrExistCanonical with i > 0, pruned ancestor, future) and no block failing the signature, consensus-field, body or state check is anywhere in the index after any history and at any crash point - proved for trees without a block whose ONLY flaw is the transaction root committed in its header (C11_only_valid_blocks_canonical_holds_outside) and refuted by a witness for trees with one (C11_only_valid_blocks_canonical_refuted; open finding side-chain-skips-tx-root-check: verifyAllSideChainBlocks does not compare the transaction root); (2) whatever database write of whatever import the process dies after, the restart succeeds and the restarted node is consistent in the same sense; (3) the restarted node stays consistent under any further history; (4) not-wedged for every batch that extends the head linearly and for every batch whose first head switch reorganises the chain (first block on any stored block with state, head anywhere, linear rest): after any crash point, offering the batch again yields exactly the database and head of the node that never crashed. The model is compared with the real core.BlockChain on every run inside Coq: error class, classified write sequence and abstract database after each batch; restart head, consistency verdict, re-import result and head after one further valid block at every crash point of every batch; restart on databases that lost state roots (repair).",
     "level_note": "Trusted: Coq kernel + vm_compute (witnesses, non-vacuity, in-Coq model runs); fidelity of the hand model rests on the differential check (generator reach in evidence); header verification is the labelled test engine harness/cmd/c11/engine.go, which mirrors ucon.Server.verifyHeader's order of chain-dependent checks and computes all verdicts of a batch on the chain as it is when insertChain starts (one legal schedule of the real, concurrent VerifyHeaders); state = one root (validator/staking roots constant, asserted by the harness); LRU caches transparent; not-wedged is proved for linear extensions of the head and otherwise (side-chain / fork-switch batches) established by enumeration on the implementation (oracle); no axioms.",
     "harness": "c11",
     "fingerprint_funcs": [
@@ -38,7 +47,8 @@ SPEC = {
     "properties_v": "C11/Properties.v",
     "obligations": [
         "C11_batch_call_inventory", "C11_head_switch_is_one_write",
-        "C11_import_consistent", "C11_crash_consistent", "C11_restarted_node_stays_consistent",
+        "C11_import_chain_consistent", "C11_only_valid_blocks_canonical_holds_outside", "C11_only_valid_blocks_canonical_refuted",
+        "C11_crash_consistent", "C11_restarted_node_stays_consistent",
         "C11_not_wedged_linear_batch", "C11_not_wedged_reorganising_batch", "C11_not_wedged_next_block_partial",
         "C11_nonvacuous_import", "C11_nonvacuous_crash", "C11_nonvacuous_next_block", "C11_nonvacuous_linear_batch", "C11_nonvacuous_reorganising_batch",
         "C11_regression_witnesses",
@@ -63,6 +73,7 @@ SPEC = {
         "crash granularity is one youdb write or one atomic batch; memory is lost, the database is exactly the prefix of writes",
         "the harness follows one crash per run (crash, restart, re-import, one further block); the theorems C11_crash_consistent / C11_restarted_node_stays_consistent start from a crash-free history, but the restarted node satisfies the same invariant as a fresh one (ProofsI.J_fresh), so they apply again after each restart",
         "the trie database commit of one state root is one batch; validator and staking roots do not change in generated chains (asserted)",
+        "body validity is a class per block: 0 valid, 1 body does not match the header and does not execute, 5 only the header's transaction root is wrong (executes to the header's state/receipt/bloom/gas), 2/3/4/6/7 state root / gas used / receipts content / receipt root / bloom mismatch after execution; the generator places every class (and every header class) at every index of every dispatch path (invalidCase)",
         "header verification is an oracle with classes good / bad signature / bad consensus field / future; VerifyHeaders verdicts are taken on the chain as it is when insertChain starts",
         "engine look-back distance is 2 rounds; protocol-version lookup (VersionForRound) succeeds (generated trees are at most 8 deep = protocolRoundBack)",
         "blocks of a batch that are unknown to the tree do not occur; block numbers equal parent number + 1 is NOT assumed by the theorems (the model checks numbers where the code does)",
@@ -82,6 +93,7 @@ SPEC = {
         "rawdb.WriteTxLookupEntries", "rawdb.DeleteTxLookupEntry", "rawdb.WriteReceipts", "rawdb.ReadBlock", "rawdb.ReadCanonicalHash",
     ],
     "partial": [
+        "C11_only_valid_blocks_canonical: holds outside the open finding side-chain-skips-tx-root-check (no block of body class 5 = header commits to a wrong transaction root, content/state/receipts otherwise consistent), refuted inside it (corpus/C11/w6_tx_root_only_via_sidechain.json runs the Coq witness against the implementation; repair in fixes/C11_side_chain_skips_tx_root_check.diff). C11_restarted_node_stays_consistent carries the same hypothesis for its fourth clause",
         "C11_not_wedged: proved (exact equality of database and head after the re-import, any crash point, after any history) for (a) every batch that extends the head linearly (C11_not_wedged_linear_batch), (b) every batch whose first block is a new block on ANY stored block with state while the head is anywhere - the first head switch reorganises: side chain with state becoming canonical, re-extension of the old chain after a switch to a shorter fork with stale index entries above the head, reorg with an empty old chain - followed by a linear rest (C11_not_wedged_reorganising_batch; side conditions: no index entries above the first block's parent, reorg finds the fork point, the version-state check finds a canonical header below the batch), (c) a single block over stale higher entries (C11_not_wedged_next_block_partial). NOT proved, oracle-only (every crash point enumerated on the implementation and in the model: 100 000+ crash points per thorough run, re-imported database identical to the crash-free one except for the receipts of a re-executed canonical block, see below): batches whose first block's height is occupied by another canonical block (ErrExistCanonical at index 0 or ErrPrunedAncestor -> insertSidechain -> nested insertChain) and blocks imported over an index entry at their own height (ErrExistCanonical with i > 0: switch to a shorter or equal fork inside one batch); the missing piece is the resumption argument across insertSidechain (store phase + nested import whose verdicts are taken on another database) and a step lemma for occupied heights. Known residue, outside the property's clauses: a canonical block without own state that is re-executed gets its receipts only in the third write; killed after its state commit it is 'known' afterwards and its receipts are never written (19 of 8 021 crash points of a quick run)",
         "no-panic in crash-free histories is observed (oracle) but not proved; the theorems cover panicking imports (the node is dead, its database still consistent)",
         "ACoCHT validation, light-client pruning, SetHead, fast-sync paths and the real ucon engine are not modelled",
